@@ -61,7 +61,7 @@ def pca_facts(ck, A, n_modes, tag, **kw):
         ck.d(False, "C16", "C16_Raised", f"{tag}: PCA raised {type(e).__name__}: {str(e)[:150]}")
 
 
-def _whitener_facts(ck, A, alpha, tag, pred_eig=None, n=None, dask=False, tol=1e-8):
+def _whitener_facts(ck, A, alpha, tag, pred_eig=None, n=None, dask=False, tol=1e-8, unit=1.0):
     """A: centred matrix (n x p), full column rank."""
     n, p = A.shape
     X = da2(A, {"sample": max(2, n // 3), "feature": -1} if dask else None)
@@ -89,8 +89,8 @@ def _whitener_facts(ck, A, alpha, tag, pred_eig=None, n=None, dask=False, tol=1e
         ck.p(np.abs(W - A).max() <= 1e-12 * max(np.abs(A).max(), 1e-300), "C16", "C16_WhitenedCovIsPower", f"{tag}: alpha=1 changes the data")
     if pred_eig is not None:
         ev = np.sort(np.linalg.eigvalsh(Cw))[::-1]
-        exp = np.sort(np.array(pred_eig, float) / 16.0 * (16.0 / kap) ** alpha)[::-1]
-        ck.p(np.allclose(ev, exp, rtol=1e-8, atol=1e-10), "C16", "C16_WhitenedCovIsPower",
+        exp = np.sort(np.array(pred_eig, float) / 16.0 * (16.0 / kap) ** alpha)[::-1] * unit ** (2 * alpha)
+        ck.p(np.allclose(ev, exp, rtol=1e-8, atol=1e-10 * exp.max()), "C16", "C16_WhitenedCovIsPower",
              f"{tag}: eigenvalues of the whitened covariance {np.round(ev, 9).tolist()} differ from (s^2/kappa)^alpha = {np.round(exp, 9).tolist()}")
     back = np.asarray(wh.inverse_transform_data(Xw).values)
     ck.m(np.abs(back - A).max() <= tol * max(np.abs(A).max(), 1e-300) * 10, "C16", "C16_UnwhitenInverts", f"{tag}: un-whitening does not restore the data (max err {np.abs(back - A).max():.2e})")
@@ -147,9 +147,10 @@ def evaluate(i, scn):
     r = len(sx)
     cplx = c["dtype"] == "complex"
     V = _orth(rng, r, r, cplx)            # square: full column rank, n = 16 > p = r
-    A = (CW.H[:, 1:1 + r] * sx) @ V.conj().T
+    unit = 10.0 ** c.get("cexp", [0, 0])[0]            # physical magnitude of the field (XWorldCross.CexpPairs)
+    A = (CW.H[:, 1:1 + r] * sx) @ V.conj().T * unit
     a = CW.ALPHA[c["alpha"][0]]
-    whitener_facts(ck, A, a, f"world sx={c['sx']} {'complex' if cplx else 'real'}", pred_eig=pred["wcovx16"], dask=(i % 4 == 1) and not cplx)
+    whitener_facts(ck, A, a, f"world sx={c['sx']} x {unit:g} {'complex' if cplx else 'real'}", pred_eig=pred["wcovx16"], dask=(i % 4 == 1) and not cplx, unit=unit)
     # exact gains of the four maps on the principal directions the harness built (columns of V)
     try:
         wh = Whitener(alpha=a)
@@ -157,11 +158,11 @@ def evaluate(i, scn):
         wh.fit(Xa)
         n = A.shape[0]
         for kap in (n, n - 1):
-            g = np.array([(gn / gd) * (16.0 / kap) ** ((1 - a) / 2) for gn, gd in pred["gainx"]])      # (s^2/kappa)^((alpha-1)/2)
+            g = np.array([(gn / gd) * (16.0 / kap) ** ((1 - a) / 2) for gn, gd in pred["gainx"]]) * unit ** (a - 1)     # (s^2/kappa)^((alpha-1)/2)
             Pd = xr.DataArray(V, dims=("feature", "mode"), coords=dict(feature=np.arange(r), mode=np.arange(1, r + 1)))
             into = np.asarray(wh.transform_components(Pd).transpose("feature", "mode").values)
             out = np.asarray(wh.inverse_transform_components(Pd).transpose("feature", "mode").values)
-            ok = np.abs(into - V * g).max() <= 1e-8 * max(g.max(), 1) and np.abs(out - V / g).max() <= 1e-8 * max((1 / g).max(), 1)
+            ok = np.abs(into - V * g).max() <= 1e-8 * g.max() and np.abs(out - V / g).max() <= 1e-8 * (1 / g).max()
             if ok:
                 break
         ck.p(ok, "C16", "C16_PatternMapsInvert", f"world sx={c['sx']} alpha={a}: patterns along the principal directions are not multiplied by the gain (s^2/kappa)^((alpha-1)/2) "
@@ -191,6 +192,7 @@ def generic(rep, a):
                 s = np.geomspace(cond, 1.0, p)
                 A = (U * s) @ V.conj().T
                 A = A - A.mean(0)
+                A = A * [1.0, 1e-8, 1e5][n_cases % 3]          # physical magnitude of the data
                 for al in alphas if rep.tier == "thorough" else alphas[:4]:
                     for dask in ((False, True) if not cplx else (False,)):
                         # tolerance grows with the conditioning of the covariance (cond^2)
@@ -222,7 +224,7 @@ def main():
     # one scenario per distinct (sx, alpha_x, dtype): the Y side does not matter here
     seen, uniq = set(), []
     for s in scns:
-        key = (tuple(s["cfg"]["sx"]), s["cfg"]["alpha"][0], s["cfg"]["dtype"])
+        key = (tuple(s["cfg"]["sx"]), s["cfg"]["alpha"][0], s["cfg"]["dtype"], s["cfg"].get("cexp", [0, 0])[0])
         if key not in seen:
             seen.add(key)
             uniq.append(s)
